@@ -147,3 +147,7 @@ def e1_replay(pid, path):
 
 for _p in e1.INVS:
     REGISTRY[_p] = e1_check
+
+import domain
+REGISTRY["C17"] = domain.c17
+REGISTRY["C14"] = domain.c14
